@@ -54,6 +54,8 @@ CLAIMED["C19"] = ("Deductive proof of the derived-metrics contracts: NumGlyphs c
   "Partial: GlyphList order (.notdef first, encoding order, then alphabetical) and BuiltinEncoding are not under functional contract; float arithmetic is treated as real arithmetic (see evidence.not_covered). Trusted: sort.Slice, govc, go/ssa, solvers.", T, "DESIGN.md §3 C19")
 CLAIMED["C17"] = ("Deductive proof of order independence for every loop over a Go map (and over a not yet sorted maps.Keys result) in the anchored files: for two arbitrary distinct entries, running the loop body for one then the other from any state satisfying the loop invariants gives the same heap and locals as the opposite order, and no iteration leaves the loop (obligation kind maporder; adjacent transpositions generate all orders); every maps.Keys result is sorted before any order-sensitive use (kind keys-sorted); type1.Read's choice of the font dictionary is order independent because exactly one font is present (invariant len(FontDirectory) == 1).",
   "Partial: encodeCharstrings' loop (inner loops in the body) is not claimed - only its own-key frame is proved; text/template's sorted map output, sort.Slice/slices.Sort and wall-clock/address independence are trusted or outside contracts; cross-process equality follows from the same obligations since no hash seed is modelled (arbitrary order). Trusted: govc, go/ssa, solvers.", T, "DESIGN.md §3 C17")
+CLAIMED["C04"] = ("Deductive proof of lexical step contracts over a view of the bytes in memory (peeked bytes followed by the unread buffer): Next/Peek/SkipByte consume or keep exactly the front of the view in clear-text mode; ReadString obeys PLRM 3.2.2 byte by byte for all byte values (nesting parentheses, the eight named escapes, backslash-newline, one to three octal digits with overflow dropped, unknown escapes taken literally, CR and CR LF read as LF); ReadHexString skips white space, pairs digits of either case high nibble first and rejects other bytes; isRegular is exactly the complement of white space/control bytes and the ten delimiters.",
+  "Partial: the clauses hold while at least four bytes are in memory (what happens at a refill boundary is the C12 refill contract, not composed); ScanToken dispatch, numbers (strconv/regexp), names, ASCII85, comments/DSC and the String.PS/Name.PS round trips are not under contract (see evidence.not_covered). Trusted: govc, go/ssa, solvers.", T, "DESIGN.md §3 C04")
 NA = {
  "C09": "whole-pipeline equality (write through text/template and fmt, read back through the tokenizer, ~60 operators and the charstring decoder) cannot be stated as a contract over one call: no contract within reach carries a Font value through text/template output and back through the interpreter. The component contracts it rests on are proved under C05, C06, C08, C10, C20 (DESIGN.md §4).",
  "C15": "AFM write/read cycle equality runs through fmt.Fprintf, bufio.Scanner, strings.Fields and strconv in both directions; these stdlib functions are opaque to the verifier (no string theory), so no contract can express that the text written is the text parsed (DESIGN.md §4). The no-panic and error-propagation parts of the AFM reader/writer are proved under C01, C10, C13.",
